@@ -6,12 +6,12 @@ from harness import common
 from harness.common import Stream, hexb, cps
 
 PID = "C06"
-LEAN_MODULES = ["Astm.Proofs.C06", "Astm.State.C06"]
+LEAN_MODULES = ["Astm.Proofs.C06", "Astm.State.C06", "Astm.Surface.C06"]
 THEOREMS = [
     "Astm.C06.nonempty_ok", "Astm.C06.two_hex_chars", "Astm.C06.spells_sum_mod_256",
     "Astm.C06.closed_form", "Astm.C06.concat_additive", "Astm.C06.single_byte_change",
     "Astm.C06.str_agrees_with_latin1", "Astm.C06.example_concrete",
-    "Astm.C06.anchored_code_keeps_no_other_state",
+    "Astm.C06.anchored_code_keeps_no_other_state", "Astm.C06.anchored_code_keeps_its_signatures",
 ]
 RULE = ("correspondence: utils.make_checksum vs Lean makeChecksumE/makeChecksumStrE on all byte strings of "
         "length 1 and 2, every residue x several lengths, seeded random strings (up to 64 kB in the thorough tier) "
